@@ -374,7 +374,12 @@ func (ca *ConnlistAnalyzer) includePairOfWorkloads(pe *eval.PolicyEngine, src, d
 	}
 
 	// no focus-workload or at least one of src/dst should be the focus workload
-	return ca.isPeerFocusWorkload(src) || ca.isPeerFocusWorkload(dst)
+	// (a representative peer is not a workload of the input, also when the focus workload has the name of its pod)
+	if ca.focusWorkload == "" {
+		return true
+	}
+	return (ca.isPeerFocusWorkload(src) && !pe.IsRepresentativePeer(src)) ||
+		(ca.isPeerFocusWorkload(dst) && !pe.IsRepresentativePeer(dst))
 }
 
 func (ca *ConnlistAnalyzer) includePairWithRepresentativePeer(pe *eval.PolicyEngine, src, dst Peer) bool {
